@@ -21,7 +21,7 @@ def written (g : Fsg) : List Link := (List.range g.nState).flatMap (arcsOf g)
 def fileName (g : Fsg) : String := if g.name = "" then "unknown" else g.name
 
 def rebuild (q : Int → Int) (g : Fsg) : Fsg :=
-  (written g).foldl (addArc q g) (Fsg.init (fileName g) g.nState g.start g.final)
+  (written g).foldl (addArc q g) (Fsg.init (fileName g) g.nState g.start g.final g.logZero)
 
 /-- the laws assumed of libc's conversions: the integers that occur (state numbers, `≤ nState`)
 survive `%d`/`strtol`; the probability of every arc of `g` is accepted on read-back and comes back
@@ -29,6 +29,8 @@ as `q logp` -/
 structure CodecLaw (C : Codec) (q : Int → Int) (g : Fsg) : Prop where
   num : ∀ n : Nat, n ≤ g.nState → C.parseN (C.showN n) = some (n : Int)
   prob : ∀ l ∈ g.links, C.parseP (C.printP l.logp) = some (q l.logp)
+  /-- the reader is given the `logmath` the grammar was built with -/
+  zero : C.zero = g.logZero
 
 /-- what a grammar must satisfy to be written as a file: states in range (the C code requires it
 of every arc), words are non-empty tokens -/
@@ -114,7 +116,7 @@ theorem read_write {C : Codec} {q : Int → Int} {g : Fsg} (law : CodecLaw C q g
   have k5 : kwMatch "START_STATE" "START_STATE" = true := by decide
   have k6 : kwMatch "FINAL_STATE" "F" = false := by decide
   have k7 : kwMatch "FINAL_STATE" "FINAL_STATE" = true := by decide
-  have hlines := readLines_written law wf (written g) (Fsg.init (fileName g) g.nState g.start g.final)
+  have hlines := readLines_written law wf (written g) (Fsg.init (fileName g) g.nState g.start g.final g.logZero)
     (fun l hl => mem_written.1 hl) rfl
   unfold read write
   simp only [List.cons_append, List.nil_append, headerValue, k1, k2, k3, k4, k5, k6, k7, Bool.or_true, Bool.false_or,
@@ -127,7 +129,7 @@ theorem read_write {C : Codec} {q : Int → Int} {g : Fsg} (law : CodecLaw C q g
     unfold written; rw [List.map_flatMap]
   rw [this]
   have hname : (if g.name = "" then "unknown" else g.name) = fileName g := rfl
-  rw [hname, hlines]
+  rw [hname, law.zero, hlines]
   rfl
 
 /-! ### the rebuilt grammar has the same labelled arcs -/
@@ -283,7 +285,7 @@ theorem rebuildFold_inv {q : Int → Int} {g : Fsg} : ∀ (arcs : List Link) (ac
     simpa using this
 
 theorem rebuild_inv (q : Int → Int) (g : Fsg) : RInv q g (rebuild q g) (written g).reverse := by
-  have := rebuildFold_inv (q := q) (g := g) (written g) (Fsg.init (fileName g) g.nState g.start g.final) []
+  have := rebuildFold_inv (q := q) (g := g) (written g) (Fsg.init (fileName g) g.nState g.start g.final g.logZero) []
     (fun l hl => (mem_written.1 hl).1)
     ⟨fun _ h => (by cases h), fun _ h => (by cases h), fun _ h => (by cases h)⟩
   simpa [rebuild] using this
@@ -299,6 +301,23 @@ theorem addArc_fields (q : Int → Int) (src acc : Fsg) (l : Link) :
     obtain ⟨_, _, _, _, a, b, c⟩ := wordAdd_spec acc (wordStr src w)
     have f := transAdd_fields (wordAdd acc (wordStr src w)).1 l.src l.dst (q l.logp) (wordAdd acc (wordStr src w)).2
     exact ⟨f.2.2.1.trans a, f.1.trans b, f.2.1.trans c⟩
+
+theorem addArc_logZero (q : Int → Int) (src acc : Fsg) (l : Link) : (addArc q src acc l).logZero = acc.logZero := by
+  unfold addArc
+  cases l.wid with
+  | none => exact (nullAdd_start _ _ _ _).2.2.2.2.2.2.2
+  | some w =>
+    simp only
+    rw [(transAdd_fields _ _ _ _ _).2.2.2.2.2.2.2]
+    unfold wordAdd; split <;> rfl
+
+theorem rebuild_logZero (q : Int → Int) (g : Fsg) : (rebuild q g).logZero = g.logZero := by
+  unfold rebuild
+  suffices H : ∀ (arcs : List Link) (acc : Fsg), (arcs.foldl (addArc q g) acc).logZero = acc.logZero from H _ _
+  intro arcs
+  induction arcs with
+  | nil => intro _; rfl
+  | cons l arcs ih => intro acc; rw [List.foldl_cons, ih, addArc_logZero]
 
 theorem rebuild_fields (q : Int → Int) (g : Fsg) :
     (rebuild q g).nState = g.nState ∧ (rebuild q g).start = g.start ∧ (rebuild q g).final = g.final := by
@@ -329,7 +348,7 @@ theorem nullWF_rebuild {q : Int → Int} {g : Fsg} (hq : ∀ l ∈ g.links, l.wi
   unfold rebuild
   suffices H : ∀ (arcs : List Link) (acc : Fsg), (∀ l ∈ arcs, l ∈ g.links) → NullWF acc →
       NullWF (arcs.foldl (addArc q g) acc) from
-    H _ _ (fun l hl => (mem_written.1 hl).1) (nullWF_init _ _ _ _)
+    H _ _ (fun l hl => (mem_written.1 hl).1) (nullWF_init _ _ _ _ _)
   intro arcs
   induction arcs with
   | nil => intro _ _ h; exact h
@@ -384,6 +403,8 @@ theorem rebuild_closed {q : Int → Int} {g : Fsg} (hwf : NullWF g) (hc : NullCl
     (hsrc : ∀ l ∈ g.links, l.src < g.nState) (hq : ∀ l ∈ g.links, q l.logp = l.logp) :
     NullClosed (rebuild q g) := by
   have inv := rebuild_inv q g
+  unfold NullClosed
+  rw [rebuild_logZero]
   intro a b v1 h1 l2' m2' w2' s2' hne
   rw [rebuild_lookup hwf hsrc hq] at h1
   obtain ⟨l2, m2, s2, d2, lb2, p2⟩ := inv.back l2' m2'
